@@ -3,3 +3,11 @@ import Lean
 register_simp_attr aframe
 /-- invariant lemmas `PresR AssetsValid (f args) R` -/
 register_simp_attr avalid
+/-- frame lemmas for the params projection -/
+register_simp_attr pframe
+/-- frame lemmas for the unbonding queue and index -/
+register_simp_attr uframe
+/-- frame lemmas for the redelegation record, queue and index -/
+register_simp_attr rframe
+/-- frame lemmas for the bank ledger -/
+register_simp_attr bframe
